@@ -23,7 +23,7 @@ def render_case(doc, sp):
     if sp["k"] == "canon":
         return render.render_canonical(doc), {"rewrites": [], "used": {}, "protected": 0, "advisory": 0}
     return render.render_lenient(doc, sp["seed"], sp.get("level", 0.6), sp.get("curly", False),
-                                 set(sp["kinds"]) if sp.get("kinds") is not None else None)
+                                 set(sp["kinds"]) if sp.get("kinds") is not None else None, set(sp.get("deny") or ()))
 
 
 def spellings_for(i: int, seed: int, n_lenient: int, curly: bool = False) -> list[dict]:
